@@ -3,6 +3,7 @@ package checks
 import (
 	"bytes"
 	"context"
+	"errors"
 	"fmt"
 
 	wire "github.com/jeroenrinzema/psql-wire"
@@ -19,15 +20,17 @@ type c18 struct{ base }
 
 func init() {
 	core.Register(c18{base{id: "C18", level: "exploration", quickB: 16, thoroughB: 32,
-		rule: "callbacks retain the library's own strings and slices without copying (query texts, parameter values, client parameter keys/values, password) next to what the harness knows it sent; every retained item is re-compared at every later callback, at connection end, and again after each of the next six connections (other limits, other traffic) was served; old portals are executed late so parameters held by the library's portal cache are re-read. Histories of 5-200 later messages with sizes around the 4 KiB allocation granule (1, 100, 4000-4200, 8191-8193), around L (L-1, L, oversized L+1..3L skipped), COPY streams of many chunks, Parse messages with unread parameter-OID tails, for L in {4096, 8192, 65536}; built with checkptr (unsafe string views). Non-trivial = at least 3 retained items survive at least 5 later messages including a granule-crossing or oversized one; distinct = (L, message-kind/size-class sequence).",
+		rule:        "callbacks retain the library's own strings and slices without copying (query texts, parameter values, client parameter keys/values, password) next to what the harness knows it sent; every retained item is re-compared at every later callback, at connection end, and again after each of the next six connections (other limits, other traffic) was served; old portals are executed late so parameters held by the library's portal cache are re-read; the parameter list itself is retained too, portals are closed later and a quarter of the statements fail after retaining. Histories of 5-200 later messages with sizes around the 4 KiB allocation granule (1, 100, 4000-4200, 8191-8193), around L (L-1, L, oversized L+1..3L skipped), COPY streams of many chunks, Parse messages with unread parameter-OID tails, for L in {4096, 8192, 65536}; built with checkptr (unsafe string views). Non-trivial = at least 3 retained items survive at least 5 later messages including a granule-crossing or oversized one; distinct = (L, message-kind/size-class sequence).",
 		need:        []string{"retained_items", "recomparisons", "late_portal_executions", "oversized_skipped", "copy_chunks", "granule_crossings", "recomparisons_after_connection_end"},
 		assumptions: append([]string{"the harness's own copies are taken from what it sent, not from the callback arguments"}, commonAssumptions...)}})
 }
 
 type c18item struct {
 	What string
-	S    *string // retained library string (no copy)
-	B    []byte  // retained library slice (no copy)
+	S    *string          // retained library string (no copy)
+	B    []byte           // retained library slice (no copy)
+	P    []wire.Parameter // retained parameter list as handed to the statement function (no copy); PI = element
+	PI   int
 	Want []byte
 }
 
@@ -47,6 +50,8 @@ func (st *c18conn) recheck(when string) {
 		var got []byte
 		if it.S != nil {
 			got = []byte(*it.S)
+		} else if it.P != nil {
+			got = it.P[it.PI].Value()
 		} else {
 			got = it.B
 		}
@@ -121,9 +126,15 @@ func c18parse(ctx context.Context, query string) (wire.PreparedStatements, error
 					}
 					if i < len(want) && len(st.items) < 400 {
 						st.items = append(st.items, c18item{What: "parameter value", B: p.Value(), Want: want[i]})
+						if i < 2 {
+							st.items = append(st.items, c18item{What: "element of the retained parameter list", P: params, PI: i, Want: want[i]})
+						}
 					}
 				}
 			}
+		}
+		if query[0] == 'x' {
+			return errors.New("c18: statement fails after retaining its parameters")
 		}
 		if len(query) > 4 && query[:4] == "copy" {
 			cr, err := w.CopyIn(wire.TextFormat)
@@ -250,6 +261,9 @@ func (ch c18) runCase(c *core.Ctx, env *hs.Env, L int, rng *core.Rng, idx int) {
 			}
 		case k < 55: // Parse (with unread OID tail) + Bind with retained parameters
 			q := text(fmt.Sprintf("p%d.%d:", idx, m), 12+rng.Intn(200))
+			if rng.Intn(4) == 0 {
+				q = "x" + q[1:] // a statement that fails when executed (after retaining its parameters)
+			}
 			st.sentQ[q] = true
 			var oids []uint32
 			for j := rng.Intn(5); j > 0; j-- {
@@ -274,9 +288,13 @@ func (ch c18) runCase(c *core.Ctx, env *hs.Env, L int, rng *core.Rng, idx int) {
 			in = append(in, pg.Bind(pname, sname, nil, params, nil)...)
 			in = append(in, pg.Sync()...)
 			shape += "PB "
-		case k < 70 && len(portals) > 0: // late execution of an old portal
+		case k < 66 && len(portals) > 0: // late execution of an old portal
 			in = append(pg.Execute(core.Pick(rng, portals), 0), pg.Sync()...)
 			shape += "E "
+		case k < 70 && len(portals) > 0: // an old portal (executed before or not) is closed
+			in = append(pg.Close('P', core.Pick(rng, portals)), pg.Sync()...)
+			c.Count("portals_closed", 1)
+			shape += "X "
 		case k < 82: // oversized message, skipped in chunks
 			n := L + 1 + rng.Intn(2*L)
 			in = pg.Raw(core.Pick(rng, []byte{'Q', 'P', 'B', 'd'}), rng.Bytes(n))
